@@ -1131,3 +1131,56 @@ def rule_compose_contexts(ctx, rep, langs=ALL_LANGS):
                                   '"%s" right after "%s" (builder %s) is %r with %s: the standard spelling of %s+%d is rejected' % (
                                       c['w'], f1, digits.decode(), r2, ops, digits.decode(), c['v']))
     rep.floor(R, n, 500, 'composition contexts evaluated')
+
+
+# ---------------------------------------------------------------------------------------
+GROUP_TOKENS = {'en': 'twenty-one', 'fr': 'vingt-deux', 'de': 'einundzwanzig', 'nl': 'eenentwintig', 'it': 'ventidue'}
+
+
+def rule_zero_invariance(ctx, rep, langs=ALL_LANGS):
+    R = 'A9b-ZERO-INVARIANCE'
+    rep.rule(R, 'leading zeros never change how the next word is interpreted: for every core cardinal word, scale-word context and '
+                'group path, apply evaluated on a builder with k leading zeros decides and instructs exactly as with none')
+    n = 0
+
+    def outcome(ev, word, digits, k, flags=0):
+        b0 = Builder(digits=digits, leading_zeroes=k, flags=flags)
+        r, b = ev.run_apply(word, b0)
+        return (isinstance(r, Res) and r.ok, repr(r) if not (isinstance(r, Res) and r.ok) else 'Ok',
+                tuple(o for o in b.ops), repr(b.marker), b.frozen)
+
+    for lang in langs:
+        lx = lexicon(lang)
+        ev = evaluator(ctx, lang)
+        cases = []   # (label, word, digits, flags, evaluator)
+        for c in lx['cardinals']:
+            if c['tier'] == 'core':
+                cases.append(('%s' % c['w'], c['w'], b'', 0, ev))
+        for word, cls, ok_m, bare_ok, bad_m in SCALE_CONTEXTS.get(lang, []):
+            for m in [x for x in (1, 2, 21, 101) if x in ok_m or x in bad_m]:
+                cases.append(('%s after %d' % (word, m), word, str(m).encode(), PT_FLAGS_AFTER.get(m, 0) if lang == 'pt' else 0, ev))
+        if lang in GROUP_TOKENS:
+            for gd in (b'21', b'1200', b'21000'):
+                gev = LexEvaluator(ctx.facts, lang)
+                gev.group_result = Res(True, Builder(digits=gd))
+                cases.append(('group %s' % gd.decode(), GROUP_TOKENS[lang], b'', 0, gev))
+        for label, word, digits, flags, e in cases:
+            try:
+                base = outcome(e, word, digits, 0, flags)
+                diffs = []
+                for k in (1, 3, 6):
+                    n += 1
+                    o = outcome(e, word, digits, k, flags)
+                    if o != base:
+                        diffs.append((k, o[1], [x for x in o[2]]))
+            except (Unanalysable, Compound) as ex:
+                rep.anchor(R, '%s|%s' % (lang, label), 'not analysable: %s' % ex)
+                continue
+            ent = '%s|%s' % (lang, label)
+            if diffs:
+                k, res, ops = diffs[0]
+                rep.violation(R, ent, '"%s"%s: without leading zeros apply gives %s %s, after %d spoken zero(s) it gives %s %s — zeros before a number '
+                              'change how it is read' % (word, (' (builder %s)' % digits.decode()) if digits else '', base[1], list(base[2]), k, res, ops))
+            else:
+                rep.ok(R, ent, 'same decision and instruction with 0, 1, 3 and 6 leading zeros')
+    rep.floor(R, n, 900, 'zero-invariance evaluations')
